@@ -1028,7 +1028,9 @@ def o_sweep(cfg, inp, deep, out, out_flat, sweep):
     """as_sweep: the returned circuit resolved with EVERY resolver of the returned sweep means the same as the input."""
     rs = list(cirq.to_resolvers(sweep))
     if not rs:
-        return "as_sweep returned an empty sweep"
+        if cirq.parameter_names(out) - set(inp.symbols):
+            return "as_sweep returned a circuit with new symbols but an empty sweep"
+        rs = [cirq.ParamResolver({})]  # no gauge target in the circuit: nothing to sweep over
     for r in rs:
         for ri, r_in in enumerate(inp.resolvers):
             full = {str(k): v for k, v in r.param_dict.items()}
@@ -1089,6 +1091,8 @@ def documented_rejection(cfg, inp, deep, e) -> bool:
         if n.startswith("drop_terminal_measurements") and ("deep=True` is required" in s or "non-terminal measurement" in s):
             return True
         if "Multiple tags are prefixed" in s:
+            return True
+        if n.startswith("RandomizedMeasurements") and "Measuring an empty set of qubits" in s and not inp.circuit.all_qubits():
             return True
     return False
 
@@ -1174,7 +1178,7 @@ _QM_L = None
 
 
 def qm_letters():
-    cl0, cl1 = cirq.ops.CleanQubit(0), cirq.ops.CleanQubit(1)
+    cl0, cl1, cl2 = cirq.ops.CleanQubit(0), cirq.ops.CleanQubit(1), cirq.ops.CleanQubit(2)
     bo0, bo1 = cirq.ops.BorrowableQubit(0), cirq.ops.BorrowableQubit(1)
     clean_block = [cirq.CNOT(a, cl0), cirq.CNOT(cl0, b), cirq.CNOT(a, cl0)]
     clean2 = [cirq.CNOT(a, cl0), cirq.CNOT(b, cl1), cirq.CCZ(cl0, cl1, c), cirq.CNOT(b, cl1), cirq.CNOT(a, cl0)]
@@ -1183,7 +1187,8 @@ def qm_letters():
     return [
         ("H(a)", [cirq.H(a)]), ("CZ(a,b)", [cirq.CZ(a, b)]), ("X(c)^.5", [cirq.X(c) ** 0.5]), ("CZ(b,c)", [cirq.CZ(b, c)]),
         ("clean[b^=a via c0]", clean_block), ("clean[CCZ via c0,c1]", clean2), ("borrow[b^=a via b0]", borrow_block),
-        ("borrow[c^=b via b1]", borrow2), ("SUB(clean[b^=a via c0])", [cirq.CircuitOperation(cirq.FrozenCircuit(clean_block))]),
+        ("borrow[c^=b via b1]", borrow2),
+        ("SUB(clean[b^=a via c2])", [cirq.CircuitOperation(cirq.FrozenCircuit(cirq.CNOT(a, cl2), cirq.CNOT(cl2, b), cirq.CNOT(a, cl2)))]),
         ("clean[c^=b via c1]", [cirq.CNOT(b, cl1), cirq.CNOT(cl1, c), cirq.CNOT(b, cl1)]),
     ]
 
@@ -1205,7 +1210,7 @@ def run_qm(case):
     items = [op for i in seq for op in _QM_L[i][1]]
     circ = cirq.Circuit(items) if layout == 0 else cirq.Circuit([cirq.Moment(op) for op in items])
     snap = tuple(circ.moments)
-    qm = [None, cirq.GreedyQubitManager(prefix="anc", maximize_reuse=True), cirq.SimpleQubitManager()][qmi]
+    qm = [None, cirq.GreedyQubitManager(prefix="anc", maximize_reuse=True), cirq.GreedyQubitManager(prefix="anc", size=1)][qmi]
     u_in, _, _ = _effective_unitary(circ)
     out = T.map_clean_and_borrowable_qubits(circ, qm=qm)
     if tuple(circ.moments) != snap or not all(x is y for x, y in zip(circ.moments, snap)):
@@ -1226,7 +1231,7 @@ def run_qm(case):
 
 def describe_qm(case):
     seq, layout, qmi = case
-    return {"letters": [_QM_L[i][0] for i in seq], "layout": layout, "qubit_manager": ["default", "greedy(maximize_reuse)", "simple"][qmi]}
+    return {"letters": [_QM_L[i][0] for i in seq], "layout": layout, "qubit_manager": ["default", "greedy(maximize_reuse)", "greedy(size=1)"][qmi]}
 
 
 # ---------------------------------------------------------------------------------------------
